@@ -264,6 +264,12 @@ breaking('SP1-seed-C09-r4m3', {'C09': 'SP1'}, patch='/verif/selftest/patches/see
 breaking('W8-seed-C02-r4m1', {'C02': 'W8'}, patch='/verif/selftest/patches/seed_C02_r4m1.diff')
 breaking('HM1-seed-C02-r4m2', {'C02': 'HM1'}, patch='/verif/selftest/patches/seed_C02_r4m2.diff')
 breaking('DT7-seed-C02-r4m3', {'C02': 'DT7'}, patch='/verif/selftest/patches/seed_C02_r4m3.diff')
+breaking('DOM1-seed-C05-r4m1', {'C05': 'DOM1', 'C06': 'DOM1'}, patch='/verif/selftest/patches/seed_C05_r4m1.diff')
+breaking('PU1-seed-C05-r4m2', {'C05': 'PU1', 'C13': 'PU1'}, patch='/verif/selftest/patches/seed_C05_r4m2.diff')
+breaking('RS1-seed-C05-r4m3', {'C05': 'RS1'}, patch='/verif/selftest/patches/seed_C05_r4m3.diff')
+breaking('F9-seed-C06-r4m1', {'C06': 'F9', 'C16': 'F9'}, patch='/verif/selftest/patches/seed_C06_r4m1.diff')
+breaking('CC1-seed-C06-r4m2', {'C06': 'CC1'}, patch='/verif/selftest/patches/seed_C06_r4m2.diff')
+breaking('I2-seed-C06-r4m3', {'C06': 'I2'}, patch='/verif/selftest/patches/seed_C06_r4m3.diff')
 breaking('refix-get_gme_2qubit', {'C13': 'F2', 'C05': 'F2'}, patch_reverse='fix_78cd862.diff')
 
 # ---- behaviour-preserving edits for the second half of the round-3 rules
